@@ -76,7 +76,7 @@ def one_case(rng, tier):
 
 def check_case(case, counters, sets):
     ar = asyncrun.run_async(case)
-    if ar.stop in ('iter-cap', 'vt-cap'):
+    if ar.stop in ('iter-cap', 'vt-cap', 'watchdog'):
         return ar, None
     viols, seen = [], set()
 
